@@ -91,7 +91,7 @@ HEAVY_FACTOR = {"M4L": 6.0}       # outage of line 0 does not converge, everythi
 
 # limit alphabets: how max_loading_percent (/ _nminus1) are set.  Values are chosen away (>= 0.5 %) from every
 # loading that occurs, see d_nminus1.brute (borderline comparisons are never judged anyway).
-LIMITS = ("some", "none", "all", "nm1col", "nanlim")
+LIMITS = ("some", "none", "all", "nm1col", "nanlim", "nm1one")
 
 
 def apply_limits(net, name, limits):
@@ -109,6 +109,12 @@ def apply_limits(net, name, limits):
         elif limits == "nm1col":      # the N-1 column must win over the plain one
             net[et]["max_loading_percent"] = 0.01
             net[et]["max_loading_percent_nminus1"] = base + 3. * np.arange(n)
+        elif limits == "nm1one":      # the N-1 column exists in the line table ONLY; other branch tables use the plain one
+            if et == "line":
+                net[et]["max_loading_percent"] = 0.01
+                net[et]["max_loading_percent_nminus1"] = base + 3. * np.arange(n)
+            else:
+                net[et]["max_loading_percent"] = base
         elif limits == "nanlim":      # NaN limit on the first element: never counts as overloaded
             v = np.full(n, base - 5.)
             v[0] = np.nan
